@@ -170,6 +170,22 @@ prop("C02", level="exploration",
      min_nontrivial=dict(quick=200, thorough=3000),
      assumptions=_fs_assume)
 
+prop("C23", level="exploration",
+     stages=[
+         dict(pkg="fullstack", test="TestC23", race=True, vary_gomaxprocs=True, cases=dict(quick=300, thorough=4000), timeout=3600),
+     ],
+     technique="runtime monitoring: PeerState(...).Diagnostics() and Stats() sampled by the harness at constructed quiescent points (logical-step quiescence: no message in flight, no step advancing, all live traversals parked at store gates) of generated request histories with holds, releases, context cancels, API cancels, pauses/unpauses on both sides, partial responses and injected send failures; Go race detector",
+     level_text=("Per case 3-8 requests from one requestor to 1-2 responders, with 1-3 outgoing and incoming workers, are driven through a generated history of 6-17 "
+                 "operations; responder traversals are parked on per-DAG store gates so that queued / running / paused / ended requests coexist. After every operation "
+                 "the harness waits for quiescence and reads both nodes' PeerState for every peer: a non-empty Diagnostics() that persists over a sustained quiescent "
+                 "window is a violation. After all requests ended, Stats must report 0 active, 0 pending and 0 allocated bytes on every node."),
+     level_note="Diagnostics() is the code's own agreement predicate between request states and task-queue topics; the monitor adds the quiescent-point discipline and the history generator.",
+     rule=("One evaluation = one history; non-trivial = the history completed with all snapshots taken at confirmed quiescent points; "
+           "counters.quiescent_snapshots = number of Diagnostics comparisons actually made."),
+     min_nontrivial=dict(quick=200, thorough=3000),
+     min_counters=dict(quiescent_snapshots=dict(quick=2000, thorough=30000)),
+     assumptions=_fs_assume)
+
 prop("C24", level="exploration",
      stages=[dict(pkg="fullstack", test="TestC24", sub="random", race=True, vary_gomaxprocs=True,
                   cases=dict(quick=500, thorough=6000), timeout=3600)],
